@@ -23,7 +23,8 @@
 //	face <id> <L|N|tcp4:ADDR|tcp6:ADDR> <p2p|multi|adhoc>    => ok
 //	     tcp4:/tcp6: = the scope of the face is whatever the REAL unicast TCP transport, constructed
 //	     for that remote address by face.MakeUnicastTCPTransport (no socket is opened), says; in ls
-//	     mode that transport object is also the transport of the ingress link service
+//	     mode that transport object is also the transport of the ingress link service; the answer is
+//	     "scope=U" instead of "ok" when that scope is neither Local nor NonLocal
 //	dynface <slot> <L|N> <p2p|multi|adhoc> | dynclose <slot>  => ok
 //	     a face whose id is handed out by the REAL face table: a real link service is registered with
 //	     face.FaceTable.Add (dynclose: FaceTable.Remove); <slot> (a number >= 900) names it in later
@@ -603,6 +604,9 @@ func classify(kind, addr string) string {
 
 var idsBurnt bool
 
+// unknownScope: the face just created has a scope that is neither Local nor NonLocal
+var unknownScope bool
+
 // burnFaceIDs advances the real face table's id counter beyond the ids of the fake faces (11, 12, ...)
 // so that faces registered through FaceTable.Add never replace one of them in dispatch.FaceDispatch.
 func burnFaceIDs() {
@@ -727,6 +731,10 @@ func Exec(op string) string {
 				return "err"
 			}
 			ff.scope = realT.Scope()
+			if ff.scope != defn.Local && ff.scope != defn.NonLocal {
+				// registered all the same: the forwarder's guards then see this third value
+				unknownScope = true
+			}
 		}
 		switch f[3] {
 		case "multi":
@@ -749,6 +757,10 @@ func Exec(op string) string {
 			}
 			l.SetFaceID(ff.id)
 			lsFaces[ff.id] = l
+		}
+		if unknownScope {
+			unknownScope = false
+			return "scope=" + scopeText(ff.scope)
 		}
 		return "ok"
 	case "rmface":
